@@ -3,6 +3,7 @@ package rules
 import (
 	"fmt"
 	"go/token"
+	"go/types"
 	"sort"
 	"strings"
 
@@ -83,7 +84,33 @@ func (c *Ctx) edgeRules() []EdgeRule {
 				}
 			}
 			if !bound {
-				esites = append(esites, edgeSite{call, a, core.Lits(core.Guards(call.Block())), p.InstrPos(call), call, nil})
+				lits0 := core.Lits(core.Guards(call.Block()))
+				// a private step whose guards test a boolean parameter (`linkTypedSubtypes(g, argHasSubtype)`): one edge per
+				// call site, with the guards read under the constant that site hands in
+				if bp := boolParamInLits(f, lits0); bp != nil && p.PrivateHelper(f) && len(p.Callers(f)) > 0 {
+					idx, allConst := -1, true
+					for i, q := range f.Params {
+						if q == bp {
+							idx = i
+						}
+					}
+					for _, site := range p.Callers(f) {
+						if idx < 0 || idx >= len(site.Common().Args) {
+							allConst = false
+						} else if _, isK := core.ConstBool(site.Common().Args[idx]); !isK {
+							allConst = false
+						}
+					}
+					if allConst {
+						for _, site := range p.Callers(f) {
+							k, _ := core.ConstBool(site.Common().Args[idx])
+							lits := append(specialiseLits(lits0, bp, k), core.Lits(core.Guards(site.Block()))...)
+							esites = append(esites, edgeSite{call, a, lits, p.InstrPos(call) + " (called at " + p.InstrPos(site) + ")", call, nil})
+						}
+						continue
+					}
+				}
+				esites = append(esites, edgeSite{call, a, lits0, p.InstrPos(call), call, nil})
 				continue
 			}
 			for _, site := range p.Callers(f) {
@@ -906,4 +933,38 @@ func runEdgeClosure(c *Ctx, edges []EdgeRule, k *core.Kinds) {
 	c.R.Add("EDGE-C", "closure|subtype-and-name-preserved-along-chains", "(abstract label closure)", "-", bad == "",
 		"along any chain of pass-through edges a subtype never turns into a different non-empty subtype at identical type, and a name never turns into a different name",
 		ternary(bad == "", fmt.Sprintf("%d abstract states explored exhaustively, no violating chain", explored), bad))
+}
+
+// boolParamInLits: a boolean parameter of f that one of the literals compares a condition with.
+func boolParamInLits(f *ssa.Function, lits []core.Lit) *ssa.Parameter {
+	for _, l := range lits {
+		for _, v := range []ssa.Value{l.X, l.Y, l.Of} {
+			if prm, ok := v.(*ssa.Parameter); ok && prm.Parent() == f && types.Identical(prm.Type().Underlying(), types.Typ[types.Bool]) {
+				return prm
+			}
+		}
+	}
+	return nil
+}
+
+// specialiseLits reads the literals with the boolean parameter bp fixed to k: `(cond) == bp` becomes cond (or its
+// negation), `bp` itself becomes true/false and is dropped.
+func specialiseLits(lits []core.Lit, bp *ssa.Parameter, k bool) []core.Lit {
+	var out []core.Lit
+	for _, l := range lits {
+		switch {
+		case l.Kind == "bool" && l.Of == ssa.Value(bp):
+			continue
+		case l.Kind == "cmp" && l.Op == token.EQL && (l.X == ssa.Value(bp) || l.Y == ssa.Value(bp)):
+			other := l.X
+			if other == ssa.Value(bp) {
+				other = l.Y
+			}
+			// (other == bp) is l.Pol, bp == k  ⇒  other is (k == l.Pol)
+			out = append(out, core.LitOf(other, k == l.Pol))
+			continue
+		}
+		out = append(out, l)
+	}
+	return out
 }
